@@ -26,7 +26,7 @@ def show(t, lead=True, bare=False):
     `lead`: the position is one where a unary sign is rewritten (`-…` at the start, after `=`, `(`, `{`);
     `bare`: use those positions (and `+-`, `--`) instead of `(-…)` where the grammar allows it."""
     k = t[0]
-    if k == "num" or k == "var":
+    if k == "num" or k == "var" or k == "ext":
         return t[1]
     if k == "prime":
         return t[1] + "'"
@@ -57,7 +57,7 @@ def show(t, lead=True, bare=False):
 def show_pre(t):
     """the string as it reaches makeRPN (after the rewriting): unary minus is `(0-e)`, a call is `f@(e)`"""
     k = t[0]
-    if k in ("num", "var"):
+    if k in ("num", "var", "ext"):
         return t[1]
     if k == "prime":
         return t[1] + "'"
@@ -77,7 +77,7 @@ def show_pre(t):
 def postfix(t):
     """the postfix token list the parser must produce for the string `show(t)` (after the rewriting)"""
     k = t[0]
-    if k in ("num", "var"):
+    if k in ("num", "var", "ext"):
         return [t[1]]
     if k == "par":
         return postfix(t[1])
@@ -93,8 +93,8 @@ def postfix(t):
 def names_of(t):
     if t[0] in ("var", "prime"):
         return {t[1]} | ({"t"} if t[0] == "prime" else set())
-    if t[0] == "num":
-        return set()
+    if t[0] in ("num", "ext"):
+        return set()             # an external is a number given by name
     out = set()
     for c in t[1:]:
         if isinstance(c, list):
@@ -200,8 +200,9 @@ def fuzzy0(p):
 
 
 class Oracle:
-    def __init__(self, env, quirks=()):
+    def __init__(self, env, quirks=(), ext=()):
         self.env = env
+        self.ext = {k: float(v) for k, v in ext}
         self.n = env["n"]
         self.quirks = set(quirks)   # documented-vs-coded discrepancies to leave unjudged (used by classify only)
         self.divzero = False      # a division by zero happened: the evaluator may raise ZeroDivisionError instead of giving NaN
@@ -513,6 +514,8 @@ class Oracle:
         k = t[0]
         if k == "num":
             return [V(float(t[1]))] * self.n
+        if k == "ext":
+            return [V(self.ext[t[1]])] * self.n
         if k == "var":
             return self.col(t[1])
         if k == "par":
@@ -535,7 +538,7 @@ def pre_env(case, quirks=()):
     None when one of them has no value in ordinary arithmetic or may raise."""
     env = case["env"]
     for pre in case.get("pre", ()):
-        o = Oracle(env, quirks)
+        o = Oracle(env, quirks, case.get("ext", ()))
         try:
             vals = o.ev(pre["tree"])
         except (OutOfDomain, KeyError):
@@ -564,7 +567,7 @@ def oracle(case, quirks=()):
     env = pre_env(case, quirks)
     if env is None:
         return None, False, False
-    o = Oracle(env, quirks)
+    o = Oracle(env, quirks, case.get("ext", ()))
     try:
         vals = o.ev(case["tree"])
     except (OutOfDomain, KeyError):
@@ -708,6 +711,7 @@ class P(Prop):
         (M, "TV.C02.operate_source_spaces", "operate on a string = operate on the string without its blanks (any spacing of the source)"),
         (M, "TV.C02.operate_source_starstar", "'**' written for '^'"),
         (M, "TV.C02.operate_source_reflexive", "reflexive forms 'lhs op= e' (op in + - * / ^ % !) are 'lhs = lhs op (e)'"),
+        (M, "TV.C02.operate_no_externals", "Track.operate(expr, {}) (the machine reading the dictionary of externals) is Track.operate(expr)"),
         (M, "TV.C02.getitem_is_operate", "front end: Track[expr] is Track.operate(expr) as soon as the stripped string contains one of + - / * ^ > < ( ) = '"),
         (M, "TV.C02.operate_source_bare_minus", "a bare unary minus at the start, after '=', '(' or '{' is the parenthesised '(0-...)' form (one per application)"),
     ]
@@ -724,7 +728,8 @@ class P(Prop):
                 "ScalarMuliplier ScalarDivider ScalarRevDivider(Inverser) ScalarPower ScalarRevPower ScalarAbove/Below/RevAbove/RevBelow, "
                 "Integrator Differentiator SecondOrderFiniteDiff Rectifier Sqrt Log (with its track[out]=temp storing and None result) Diode Sign "
                 "Exp Cos Sin Tan (through Apply), Sum Averager Variance StdDev Mse Rmse Mad Min Max Median Argmin Argmax; Track.operate(operator, ...) "
-                "with the default output name. Not modelled (outside the property's operator list + - * / ^ < >): % (Modulo, s%, sr%), "
+                "with the default output name; Track.__getitem__ with a string (expression or feature name); Track.operate(expression, externals) "
+                "(__evaluateRPN substituting the dictionary's values). Not modelled (outside the property's operator list + - * / ^ < >): % (Modulo, s%, sr%), "
                 ".* / ! (Filter), >> << (ShiftCircular, s& s$); their strings are compared up to the parser only (stream str)")
     trusted = ["float(), str.replace/split/strip, numpy.argsort (NaN last), math.sqrt, float ** float are modelled by contract",
                "the feature table is modelled as an insertion-ordered association list (its index-remapping representation is C01's subject)"]
@@ -736,7 +741,8 @@ class P(Prop):
             "tracks of 1..5 observations of three kinds: small values with 0, negatives, equal values, NaN; 'scaled' = a small pattern times one "
             "magnitude anywhere between 5e-324 and 1.8e308 (subnormals, below machine epsilon, beyond 2**53, near overflow); 'wide' = independent "
             "values over the whole double range with +-0.0, +-inf, NaN; optional spaces and ** for ^; entry points Track.operate(expr), Track.op(expr), "
-            "Track[expr]; sequences: one or two earlier statements run on the same track, the judged one may read what they wrote. "
+            "Track[expr] (also for strings that Track.__getitem__ takes for a feature name), Track.operate(expr, {name: value}) with numbers given by "
+            "name (sometimes shadowing a feature); sequences: one or two earlier statements run on the same track, the judged one may read what they wrote. "
             "The oracle evaluates the documented definitions with IEEE doubles and a running bound on the rounding error, and judges with a relative "
             "tolerance (1e-9 of the value + 8 bounds) at every magnitude. Cases on which ordinary arithmetic gives no value and Python raises "
             "(negative base with fractional exponent, 0 to a negative power, overflow of ** or EXP, sqrt of a negative, COS of inf) are not generated "
@@ -873,6 +879,38 @@ class P(Prop):
         if t[0] == "var":
             return ["var", rng.choice(names)] if rng.random() < 0.5 else t
         return [self.subst_var(c, rng, names) if isinstance(c, list) else c for c in t]
+
+    def with_ext(self, t, rng, wide=False):
+        """(tree, externals): some number leaves become names whose value is passed to operate in the dictionary of
+        externals ('A=A/factor', {'factor': var}); sometimes a feature name is shadowed by an external"""
+        ext = {}
+
+        def val():
+            v = wide_value(rng) if wide and rng.random() < 0.6 else rng.choice([2.0, 0.5, 3.0, -1.5, 10.0, 0.0, 1.0, 4, 3, -2])
+            return v
+
+        def go(t):
+            if t[0] == "num" and rng.random() < 0.6:
+                name = rng.choice(["k", "factor", "w1"])
+                if name not in ext:
+                    ext[name] = float(t[1]) if rng.random() < 0.5 else val()
+                return ["ext", name]
+            return [go(c) if isinstance(c, list) else c for c in t]
+        t2 = go(t)
+        if rng.random() < 0.15:
+            sh = rng.choice(["b", "speed_2"])
+
+            def shadow(t):
+                if t[0] == "var" and t[1] == sh:
+                    return ["ext", sh]
+                return [shadow(c) if isinstance(c, list) else c for c in t]
+            def has_prime(t):
+                return (t[0] == "prime" and t[1] == sh) or any(has_prime(c) for c in t if isinstance(c, list))
+            t3 = shadow(t2)
+            if t3 != t2 and not has_prime(t2):      # b' is D{b}/D{t}: a function of the shadowing number is outside the grammar
+                ext[sh] = val()
+                t2 = t3
+        return t2, [[k, v] for k, v in ext.items()]
 
     def mk_case(self, tree, env, lhs, bare, rng=None, spaces=False, stars=False, via=None):
         c = {"kind": "expr", "tree": tree, "env": env, "lhs": lhs, "bare": bool(bare), "spaces": bool(spaces), "stars": bool(stars)}
@@ -1034,6 +1072,17 @@ class P(Prop):
                 c["via"] = "op"
             if self.in_domain(c):
                 out.append(c)
+        # externals: Track.operate(expression, {'name': value}) - numbers given by name
+        for i in range(20000 if thorough else 2500):
+            st = rng.random()
+            t, ext = self.with_ext(self.rand_tree(rng, rng.choice([2, 3, 3, 4, 5]), wide=st >= 0.6), rng, wide=st >= 0.6)
+            if not ext or has_call_of_constant(t):
+                continue
+            env = self.fix_env(self.rand_env(rng, easy=st < 0.3, style=None if st < 0.6 else "scaled"))
+            c = self.mk_case(t, env, rng.choice([None, None, "c", "a", "x"]), bare=rng.random() < 0.5)
+            c["ext"] = ext
+            if self.in_domain(c):
+                out.append(c)
         # reflexive operators  lhs op= e   (meaning lhs = lhs op (e))
         for i in range(15000 if thorough else 600):
             rhs = self.rand_tree(rng, rng.choice([1, 2, 3, 4]))
@@ -1122,6 +1171,7 @@ class P(Prop):
             t["form"] = "reflexive" if case.get("reflex") else ("assign" if case["lhs"] else "value")
             t["via"] = case.get("via", "operate")
             t["earlier_statements"] = len(case.get("pre", ()))
+            t["externals"] = len(case.get("ext", ()))
         if case["kind"] == "op":
             t["form"] = case["form"]
         return t
@@ -1143,7 +1193,10 @@ class P(Prop):
                 for pre in case.get("pre", ()):
                     t.operate(pre["expr"])
                 via = case.get("via")
-                ret = t[case["expr"]] if via == "getitem" else (t.op(case["expr"]) if via == "op" else t.operate(case["expr"]))
+                if case.get("ext"):
+                    ret = t.operate(case["expr"], dict((k, v) for k, v in case["ext"]))
+                else:
+                    ret = t[case["expr"]] if via == "getitem" else (t.op(case["expr"]) if via == "op" else t.operate(case["expr"]))
             except BaseException as e:
                 if isinstance(e, KeyboardInterrupt):
                     raise
@@ -1210,6 +1263,9 @@ class P(Prop):
         if k in ("expr", "malformed"):
             if case.get("pre"):
                 return ["C02.operateseq %s %s" % (self.track_tokens(case["env"]), ",".join(enc(p["expr"]) for p in case["pre"]) + "," + enc(case["expr"]))]
+            if case.get("ext"):
+                return ["C02.operatex %s %s %s %s" % (self.track_tokens(case["env"]), tok_list(enc(k) for k, _ in case["ext"]),
+                                                     tok_list(fbits(v) for _, v in case["ext"]), enc(case["expr"]))]
             reqs = ["C02.%s %s %s" % ("getitem" if case.get("via") == "getitem" else "operate", self.track_tokens(case["env"]), enc(case["expr"]))]
             if k == "expr":
                 reqs.append("C02.denote %s %s" % (self.track_tokens(case["env"]), ",".join(tree_tokens(case["tree"]))))
